@@ -43,6 +43,9 @@ pub struct Violation {
     /// which oracle clause failed
     pub clause: String,
     pub detail: String,
+    /// optional pointer for the minimiser (e.g. which enumerated fault failed)
+    #[serde(default)]
+    pub hint: Option<Value>,
 }
 
 #[derive(Clone, Debug, Default, Serialize, Deserialize)]
@@ -65,7 +68,12 @@ impl CaseOut {
     }
     pub fn violate(&mut self, signature: String, clause: &str, detail: String) {
         if !self.violations.iter().any(|v| v.signature == signature) {
-            self.violations.push(Violation { signature, clause: clause.to_string(), detail });
+            self.violations.push(Violation { signature, clause: clause.to_string(), detail, hint: None });
+        }
+    }
+    pub fn violate_hint(&mut self, signature: String, clause: &str, detail: String, hint: Value) {
+        if !self.violations.iter().any(|v| v.signature == signature) {
+            self.violations.push(Violation { signature, clause: clause.to_string(), detail, hint: Some(hint) });
         }
     }
     pub fn reach(&mut self, measure: &str, key: String) {
@@ -81,7 +89,7 @@ pub trait Check: Sync {
     fn gen(&self, seed: u64, i: u64, tier: Tier) -> Value;
     fn exec(&self, env: &mut Env, case: &Value) -> CaseOut;
     /// simpler variants of a failing case, most aggressive first
-    fn shrink(&self, case: &Value) -> Vec<Value>;
+    fn shrink(&self, case: &Value, hint: Option<&Value>) -> Vec<Value>;
     fn rule(&self) -> String;
     fn assumptions(&self) -> Vec<String>;
 }
@@ -264,13 +272,13 @@ pub fn known<'a>(fs: &'a [Finding], prop: &str, sig: &str) -> Option<&'a Finding
 // Minimisation
 // ---------------------------------------------------------------------------
 
-pub fn minimise(check: &dyn Check, env: &mut Env, case: &Value, signature: &str, budget: usize) -> (Value, usize) {
+pub fn minimise(check: &dyn Check, env: &mut Env, case: &Value, signature: &str, hint: Option<&Value>, budget: usize) -> (Value, usize) {
     let mut best = case.clone();
     let mut tries = 0usize;
     let mut progress = true;
     while progress && tries < budget {
         progress = false;
-        for cand in check.shrink(&best) {
+        for cand in check.shrink(&best, hint) {
             if tries >= budget {
                 break;
             }
@@ -327,7 +335,7 @@ pub fn worker(check: &dyn Check, tier: Tier, seed: u64, k: u64, n: u64, limit: O
                 let (min_case, tries) = if no_min {
                     (case.clone(), 0)
                 } else {
-                    minimise(check, &mut env, &case, &v.signature, 120)
+                    minimise(check, &mut env, &case, &v.signature, v.hint.as_ref(), 120)
                 };
                 // the detail of the minimised case
                 let mo = check.exec(&mut env, &min_case);
